@@ -22,7 +22,20 @@ def run(tier, v, wd, replay=None):
     if r2.violated != "TargetFollowsMode":
         raise vlib.Infra("DialFlow.tla without the second decision no longer violates TargetFollowsMode: vacuous model")
     run_vectors(v, wd, repo, "./control/", "TestVerifC18Flow", ffile, tags="verif,dae_stub_ebpf", timeout=600, outname="out-flow.json")
+    # what makes a name "known to be genuine": DNS knowledge with its TTL, verification probes and their cache (DialProbe.tla)
+    r = vlib.tlc(wd, "DialProbe", "DialProbe_mc.cfg", timeout=600)
+    v.add_tlc(r)
+    if r.violated:
+        raise vlib.Infra("DialProbe.tla: %s violated" % r.violated)
+    r2 = vlib.tlc(wd, "DialProbe", "DialProbe_half.cfg", timeout=600, workers=1)
+    if r2.violated != "GenuineOnly":
+        raise vlib.Infra("DialProbe.tla with half-failed probes verifying no longer violates GenuineOnly: vacuous model")
+    pfile = os.path.join(wd.path, "c18probe.ndjson")
+    r = vlib.tlc(wd, "DialProbe", "DialProbe_gen.cfg", emit_to=pfile, timeout=900)
+    v.add_tlc(r)
+    run_vectors(v, wd, repo, "./control/", "TestVerifC18Probe", pfile, tags="verif,dae_stub_ebpf", timeout=900, outname="out-probe.json")
     v.coverage["exhaustive"] = True
     v.assumptions += ["'resolved through dae' is injected as an unexpired DNS-knowledge entry, 'verified' through the real-domain set, 'negative' through the negative cache",
                       "rerouting in plain domain mode is not constrained (the property is silent; the code reroutes genuine names)",
+                      "verification probes: the A / AAAA lookups are scripted through the resolveIp46ForRealDomainProbe seam; virtual time (testing/synctest) for the knowledge TTL and the negative entry's lifetime",
                       "flow level: userspace routing is one rule on the sniffed name plus a fallback; TCP flows; every group has one fixed node"]
